@@ -2,7 +2,6 @@ package main
 
 import (
 	"fmt"
-	"go/ast"
 	"go/token"
 	"go/types"
 	"strings"
@@ -17,7 +16,7 @@ func init() {
 		Run:   runC07,
 		Explanation: "Decided (structure only): R1 in dnsclient.(*Conn).Exchange every path that returns a message with a possibly-nil error crossed the r.Id == m.Id edge and the QuestionMatches=true edge (or the empty-request-question edge) for the LAST datagram read; QuestionMatches answers true only behind len(resp)==1, qtype, qclass and the canonical-name comparison; Client.SkipQuestionCheck has no store; raw ReadMsg is called only by Exchange and the Exchange wrappers hand on Exchange's own result; Resolver.exchange and Client.Exchange return the message only across the nil-error edge. " +
 			"R2 in checkGlueRR every server construction, glue-map insert and found-set insert is behind the bailiwick comparison's pass edge, the hosts[name] hit edge and usableAddr's valid edge, and carries usableAddr's address; usableAddr answers valid only behind AddrFromSlice ok, !IsLoopback and !isLocalIP; NS addresses enter the glue caches only through the enumerated delegation-path functions. " +
-			"R3 validReferral ≡ nsRecord!=nil ∧ ¬incoherent ∧ class==qclass ∧ progressingReferral(owner, authZone, qname); progressingReferral ≡ Sub(authZone,referral) ∧ ¬same-zone ∧ Sub(referral,qname); extractDelegationInfo admits an NS target only for the anchoring owner/class and flags incoherent on a mismatch; in lookup a response is returned as winner only across validReferral=true or a not-a-referral edge; in processDelegation every cache write, glue admission and descent is behind validReferral=true. " +
+			"R3 (formulas decided as decision tables on the CFG, independent of how the guards are written) validReferral ≡ nsRecord!=nil ∧ ¬incoherent ∧ class==qclass ∧ progressingReferral(owner, authZone, qname); progressingReferral ≡ Sub(authZone,referral) ∧ ¬same-zone ∧ Sub(referral,qname); extractDelegationInfo admits an NS target only for the anchoring owner/class and flags incoherent on a mismatch; in lookup a response is returned as winner only across validReferral=true or a not-a-referral edge; in processDelegation every cache write, glue admission and descent is behind validReferral=true. " +
 			"R4 authority.(*Cache).SetUntil is called only from processDelegation/lookupV4Nss (Set: no production caller), and those and checkGlueRR are reachable only from the delegation path. " +
 			"R5 the message handed to every CacheEntry constructor originates from filterCacheableAnswer, whose keep predicate is owner==qname ∨ DNAME ∨ RRSIG(DNAME) and which returns the unfiltered message only when nothing was rejected. " +
 			"R6 every successful return of Resolver.answer crossed clearAdditional or one of the two target-proof arms; clearAdditional empties the authority section unconditionally; the validated arm filters authority to the signer zone before AD is set.",
@@ -159,8 +158,10 @@ func c07R1(c *Ctx) {
 	for _, in := range instrsWhere(exch, isPlainCallTo(qm)) {
 		a0, a1 := Desc(callArg(in, 0)), Desc(callArg(in, 1))
 		key := R + "|(*Conn).Exchange|QuestionMatches operands"
-		ok0 := a0.K == EIndex && c07FieldOf(questionF, reqM)(a0.X) && IsConstInt(0)(a0.Y)
-		ok1 := FieldIs(questionF)(a1) && fromRead(a1)
+		ok0 := c07Through(func(e *Expr) bool {
+			return e.K == EIndex && c07FieldOf(questionF, c07Through(reqM))(e.X) && IsConstInt(0)(e.Y)
+		})(a0)
+		ok1 := FieldIs(questionF)(a1) && c07Through(ResultOf(0, readMsg))(a1)
 		if ok0 && ok1 {
 			c.ok(R, key, instrPos(in), "QuestionMatches(m.Question[0], <read message>.Question)")
 		} else {
@@ -236,12 +237,12 @@ func c07R1(c *Ctx) {
 	if sites := c.StoreSites(skipF); len(sites) == 0 {
 		c.ok(R, R+"|Client.SkipQuestionCheck|stores", skipF.Pos(), "no store and no composite-literal field sets Client.SkipQuestionCheck in non-test code")
 	} else {
-		c.WhoMay(R, "store Client.SkipQuestionCheck", sites, map[string]string{})
+		c.c07WhoMay(R, "store Client.SkipQuestionCheck", sites, map[string]string{})
 	}
 
 	// raw reads only inside the guard; wrappers hand on Exchange's result
-	c.WhoMay(R, "call (*Conn).ReadMsg", c.CallSites(readMsg), map[string]string{"(*" + c07dc + ".Conn).Exchange": "the guarded read loop"})
-	c.WhoMay(R, "call (*Conn).Exchange", c.CallSites(exchObj), map[string]string{
+	c.c07WhoMay(R, "call (*Conn).ReadMsg", c.CallSites(readMsg), map[string]string{"(*" + c07dc + ".Conn).Exchange": "the guarded read loop"})
+	c.c07WhoMay(R, "call (*Conn).Exchange", c.CallSites(exchObj), map[string]string{
 		"(*" + c07dc + ".Conn).ExchangeContext":       "cancellation wrapper",
 		"(*" + c07dc + ".Conn).ExchangeInterruptible": "interrupt-group wrapper",
 	})
@@ -366,12 +367,13 @@ func c07R2(c *Ctx) {
 	}
 	hostsHit := func(e *Expr) bool {
 		e = strip(e)
-		return e != nil && e.K == EExtract && e.Idx == 1 && e.X != nil && e.X.K == ELookup && c07ParamIdx(2)(e.X.X)
+		return e != nil && e.K == EExtract && e.Idx == 1 && e.X != nil && e.X.K == ELookup && c07ParamOfType(c07res, "hostSet")(e.X.X)
 	}
+	// each guard may sit in checkGlueRR itself or behind an extracted unexported helper
 	c.MustCrossAll(R, glue, "glue admission", isAdmit,
-		OnCmp("CompareSuffix>=level", CallTo(cmpSuffix), token.LSS, c07ParamIdx(3), false),
-		OnTrue("hosts[name]", hostsHit),
-		OnTrue("usableAddr valid", ResultOf(1, usable)))
+		c.c07LiftAny("CompareSuffix>=level", OnCmp("CompareSuffix>=level", CallTo(cmpSuffix), token.LSS, c07IntParam, false)),
+		c.c07LiftAny("hosts[name]=true", OnTrue("hosts[name]", hostsHit)),
+		c.c07LiftAny("usableAddr valid=true", OnTrue("usableAddr valid", ResultOf(1, usable))))
 	// the compared name is the glue record's owner; the admitted address is usableAddr's
 	for _, in := range instrsWhere(glue, isPlainCallTo(cmpSuffix)) {
 		a0 := Desc(callArg(in, 0))
@@ -428,12 +430,12 @@ func c07R2(c *Ctx) {
 		}, OnTrue("usableAddr valid", ResultOf(1, usable)))
 	}
 	// who feeds the glue caches
-	c.WhoMay(R, "call addIPv4Cache", c.CallSites(add4), map[string]string{
+	c.c07WhoMay(R, "call addIPv4Cache", c.CallSites(add4), map[string]string{
 		"(*" + c07res + ".Resolver).checkGlueRR":  "in-bailiwick glue (filters above)",
 		"(*" + c07res + ".Resolver).checkHosts":   "addresses resolved by lookupNSAddrV4",
 		"(*" + c07res + ".Resolver).lookupV4Nss":  "addresses resolved by lookupNSAddrV4",
 	})
-	c.WhoMay(R, "call addIPv6Cache", c.CallSites(add6), map[string]string{
+	c.c07WhoMay(R, "call addIPv6Cache", c.CallSites(add6), map[string]string{
 		"(*" + c07res + ".Resolver).checkGlueRR":  "in-bailiwick glue (filters above)",
 		"(*" + c07res + ".Resolver).checkHosts":   "addresses resolved by lookupNSAddrV6",
 		"(*" + c07res + ".Resolver).lookupV6Nss":  "addresses resolved by lookupNSAddrV6",
@@ -500,113 +502,36 @@ func c07R3(c *Ctx) {
 		return
 	}
 
-	// (a) validReferral's formula
-	if fd, pk := c.P.FuncDecl(c07res + ".validReferral"); fd == nil || fd.Body == nil {
-		c.unresolved(R, "validReferral", "syntax not found")
-	} else {
-		var params []*types.Var
-		for _, f := range fd.Type.Params.List {
-			for _, n := range f.Names {
-				if v, ok := pk.TypesInfo.Defs[n].(*types.Var); ok {
-					params = append(params, v)
-				}
-			}
-		}
-		selField := func(e ast.Expr, info *types.Info) *types.Var {
-			sel, ok := ast.Unparen(e).(*ast.SelectorExpr)
-			if !ok {
-				return nil
-			}
-			if s := info.Selections[sel]; s != nil {
-				v, _ := s.Obj().(*types.Var)
-				if v != nil {
-					return v.Origin()
-				}
-			}
-			return nil
-		}
-		isNil := func(e ast.Expr, info *types.Info) bool {
-			id, ok := ast.Unparen(e).(*ast.Ident)
-			if !ok {
+	// (a) validReferral's formula, decided on the CFG: any arrangement of the
+	// same four atoms (one && expression, early-return guards, nested ifs)
+	// gives the same decision table.
+	{
+		viaNS := Contains(FieldIs(nsRecordF))
+		progCall := func(e *Expr) bool {
+			e = strip(e)
+			if e == nil || e.K != ECall || !CallTo(prog)(e) || len(e.Args) != 3 {
 				return false
 			}
-			_, isNil := info.Uses[id].(*types.Nil)
-			return isNil
+			return FieldIs(hdrNameF)(e.Args[0]) && viaNS(e.Args[0]) &&
+				c07Through(c07ParamIdx(1))(e.Args[1]) &&
+				FieldIs(qnameF)(e.Args[2]) && c07Through(c07ParamIdx(2))(e.Args[2])
 		}
-		mentions := func(e ast.Expr, info *types.Info, fv *types.Var) bool {
-			found := false
-			ast.Inspect(e, func(n ast.Node) bool {
-				if x, ok := n.(ast.Expr); ok && selField(x, info) == fv {
-					found = true
-				}
-				return true
-			})
-			return found
-		}
-		atom := func(e ast.Expr, info *types.Info) string {
-			switch x := ast.Unparen(e).(type) {
-			case *ast.BinaryExpr:
-				if x.Op == token.NEQ {
-					if (isNil(x.Y, info) && selField(x.X, info) == nsRecordF) || (isNil(x.X, info) && selField(x.Y, info) == nsRecordF) {
-						return "nonnil"
-					}
-				}
-				if x.Op == token.EQL {
-					l, r := selField(x.X, info), selField(x.Y, info)
-					if l == qclassF {
-						l, r = r, l
-						x = &ast.BinaryExpr{X: x.Y, Y: x.X, Op: x.Op}
-					}
-					if l == classF && r == qclassF && mentions(x.X, info, nsRecordF) {
-						return "class"
-					}
-				}
-			case *ast.SelectorExpr:
-				if selField(x, info) == incoherentF {
-					return "incoherent"
-				}
-			case *ast.CallExpr:
-				var callee types.Object
-				switch f := ast.Unparen(x.Fun).(type) {
-				case *ast.Ident:
-					callee = info.Uses[f]
-				case *ast.SelectorExpr:
-					callee = info.Uses[f.Sel]
-				}
-				if callee == types.Object(prog) && len(x.Args) == 3 && len(params) == 3 {
-					a1, _ := ast.Unparen(x.Args[1]).(*ast.Ident)
-					if selField(x.Args[0], info) == hdrNameF && mentions(x.Args[0], info, nsRecordF) &&
-						a1 != nil && info.Uses[a1] == types.Object(params[1]) &&
-						selField(x.Args[2], info) == qnameF {
-						return "progress"
-					}
-				}
-			}
-			return ""
-		}
-		var rets []*ast.ReturnStmt
-		ast.Inspect(fd.Body, func(n ast.Node) bool {
-			if r, ok := n.(*ast.ReturnStmt); ok {
-				rets = append(rets, r)
-			}
-			return true
-		})
-		if len(rets) != 1 || len(rets[0].Results) != 1 {
-			c.undecided(R, R+"|validReferral|formula", fd.Pos(), "validReferral is no longer a single boolean return expression")
-		} else {
-			c.TruthTableCheck(R, R+"|validReferral|formula", rets[0].Results[0], pk, atom, []string{"nonnil", "incoherent", "class", "progress"},
-				func(v map[string]bool) bool { return v["nonnil"] && !v["incoherent"] && v["class"] && v["progress"] },
-				"nsRecord!=nil ∧ ¬incoherent ∧ class==qclass ∧ progressingReferral(owner, authZone, qname)")
-		}
+		c.c07FormulaCheck(R, R+"|validReferral|formula", c.fn(R, c07res+".validReferral"), 0, []c07Atom{
+			c07AtomTruthy("nonnil", c07And(FieldIs(nsRecordF), c07Through(c07ParamIdx(0)))),
+			c07AtomTruthy("incoherent", c07And(FieldIs(incoherentF), c07Through(c07ParamIdx(0)))),
+			c07AtomCmp("class", c07And(FieldIs(classF), viaNS), token.EQL, c07And(FieldIs(qclassF), c07Through(c07ParamIdx(2)))),
+			c07AtomTruthy("progress", progCall),
+		}, func(v map[string]bool) bool { return v["nonnil"] && !v["incoherent"] && v["class"] && v["progress"] },
+			"nsRecord!=nil ∧ ¬incoherent ∧ class==qclass ∧ progressingReferral(owner, authZone, qname)")
 	}
 
-	// (b) progressingReferral
-	if pf := c.fn(R, c07res+".progressingReferral"); pf != nil {
+	// (b) progressingReferral, likewise a decision table
+	{
 		referral, authZone, qname := c07ParamIdx(0), c07ParamIdx(1), c07ParamIdx(2)
 		callArgs := func(f *types.Func, a, b Pat) Pat {
 			return func(e *Expr) bool {
 				e = strip(e)
-				return e != nil && CallTo(f)(e) && e.K == ECall && len(e.Args) == 2 && a(e.Args[0]) && b(e.Args[1])
+				return e != nil && e.K == ECall && CallTo(f)(e) && len(e.Args) == 2 && a(e.Args[0]) && b(e.Args[1])
 			}
 		}
 		can := func(p Pat) Pat {
@@ -616,28 +541,12 @@ func c07R3(c *Ctx) {
 			}
 		}
 		sameZone := AnyOf(callArgs(equalFold, can(referral), can(authZone)), callArgs(equalFold, can(authZone), can(referral)))
-		notFalse := isReturnWith(0, func(e *Expr) bool { return !IsConstBool(false)(e) })
-		c.MustCrossAll(R, pf, "true-capable return", notFalse,
-			OnTrue("Sub(authZone,referral)", callArgs(sub, authZone, referral)),
-			OnFalse("same zone", sameZone))
-		for _, in := range instrsWhere(pf, notFalse) {
-			e := Desc(in.(*ssa.Return).Results[0])
-			key := R + "|progressingReferral|final atom"
-			okv := true
-			for _, l := range Origins(e, nil) {
-				if IsConstBool(false)(l) {
-					continue
-				}
-				if !callArgs(sub, referral, qname)(l) {
-					okv = false
-				}
-			}
-			if okv {
-				c.ok(R, key, instrPos(in), "answers Sub(referral, qname)")
-			} else {
-				c.violation(R, key, instrPos(in), "progressingReferral may answer something other than Sub(referral, qname): "+trunc(e.String(), 200))
-			}
-		}
+		c.c07FormulaCheck(R, R+"|progressingReferral|formula", c.fn(R, c07res+".progressingReferral"), 0, []c07Atom{
+			c07AtomTruthy("inbailiwick", callArgs(sub, authZone, referral)),
+			c07AtomTruthy("samezone", sameZone),
+			c07AtomTruthy("onpath", callArgs(sub, referral, qname)),
+		}, func(v map[string]bool) bool { return v["inbailiwick"] && !v["samezone"] && v["onpath"] },
+			"Sub(authZone,referral) ∧ ¬EqualFold(canon(referral),canon(authZone)) ∧ Sub(referral,qname)")
 	}
 
 	// (c) extractDelegationInfo: coherent NS set
@@ -666,22 +575,24 @@ func c07R3(c *Ctx) {
 	}
 
 	// (d) lookup: winner selection
-	validTrue := OnTrue("validReferral", CallTo(valid))
+	validTrue := c.c07LiftAny("validReferral=true", OnTrue("validReferral", CallTo(valid)))
 	if lf := c.fn(R, c07res+".(*Resolver).lookup"); lf != nil {
-		n := c.MustCross(R, lf, "winner return (nil error)", c07ReturnEff(1, IsNilConst),
-			validTrue,
-			OnFalse("no NS record", FieldIs(nsRecordF)),
-			OnCmp("Ns empty", c07Len(FieldIs(nsF)), token.GTR, IsConstInt(0), false),
-			OnCmp("Answer present", c07Len(FieldIs(answerF)), token.EQL, IsConstInt(0), false),
-			OnCmp("Rcode!=NOERROR", FieldIs(rcodeF), token.EQL, IsConstInt(0), false))
-		_ = n
+		// one lifted barrier over the whole triage, so the referral test may live in an
+		// unexported bool helper whose true returns crossed one of these edges
+		c.MustCross(R, lf, "winner return (nil error)", c07ReturnEff(1, IsNilConst),
+			c.c07LiftAny("validReferral=true,no NS record=false,Ns empty,Answer present,Rcode!=NOERROR",
+				OnTrue("validReferral", CallTo(valid)),
+				OnFalse("no NS record", FieldIs(nsRecordF)),
+				OnCmp("Ns empty", c07Len(FieldIs(nsF)), token.GTR, IsConstInt(0), false),
+				OnCmp("Answer present", c07Len(FieldIs(answerF)), token.EQL, IsConstInt(0), false),
+				OnCmp("Rcode!=NOERROR", FieldIs(rcodeF), token.EQL, IsConstInt(0), false)))
 	}
 	// validReferral operands at every call site: (info, <servers>.Zone, <req>.Question[0])
 	for _, s := range c.CallSites(valid) {
 		a1, a2 := Desc(callArg(s.Instr, 1)), Desc(callArg(s.Instr, 2))
 		key := fmt.Sprintf("%s|%s|validReferral operands", R, fnKey(TopLevel(s.Fn)))
-		ok1 := FieldIs(zoneF)(a1)
-		ok2 := a2.K == EIndex && FieldIs(questionF)(a2.X) && IsConstInt(0)(a2.Y)
+		ok1 := c07Through(FieldIs(zoneF))(a1)
+		ok2 := c07Through(func(e *Expr) bool { return e.K == EIndex && FieldIs(questionF)(e.X) && IsConstInt(0)(e.Y) })(a2)
 		if ok1 && ok2 {
 			c.ok(R, key, instrPos(s.Instr), "validReferral(info, servers.Zone, req.Question[0])")
 		} else {
@@ -695,7 +606,37 @@ func c07R3(c *Ctx) {
 			"internal/authority.(*Cache).SetUntil", "internal/authority.(*Cache).Set",
 			c07res+".(*Resolver).checkGlueRR", c07res+".(*Resolver).lookupV4Nss", c07res+".(*Resolver).lookupV6Nss",
 			c07res+".(*Resolver).resolve", c07res+".(*Resolver).resolveWithCachedNameservers", c07res+".(*Resolver).validateDelegation")
-		c.MustCross(R, pd, "delegation effect", isCallTo(effects...), validTrue)
+		// an unexported resolver function that itself performs one of the effects
+		// (an extracted helper) is an effect when called from processDelegation
+		isEffect := isCallTo(effects...)
+		viaHelper := map[*ssa.Function]bool{}
+		for _, hf := range c.P.FuncsInPkg(c07res) {
+			top := TopLevel(hf)
+			if top == pd || viaHelper[top] {
+				continue
+			}
+			if fo := funcObjOf(top); fo == nil || fo.Exported() {
+				continue
+			}
+			for _, b := range hf.Blocks {
+				for _, in := range b.Instrs {
+					if isEffect(in) {
+						viaHelper[top] = true
+					}
+				}
+			}
+		}
+		c.MustCross(R, pd, "delegation effect", func(in ssa.Instruction) bool {
+			if isEffect(in) {
+				return true
+			}
+			if cc := callCommon(in); cc != nil && !cc.IsInvoke() {
+				if sf := cc.StaticCallee(); sf != nil && viaHelper[TopLevel(sf)] {
+					return true
+				}
+			}
+			return false
+		}, validTrue)
 	}
 	// the delegation info handed to processDelegation is extractDelegationInfo's
 	if pdo := c.fobj(R, c07res+".(*Resolver).processDelegation"); pdo != nil {
@@ -731,16 +672,16 @@ func c07R4(c *Ctx) {
 	if setUntil == nil || set == nil || store == nil {
 		return
 	}
-	c.WhoMay(R, "call authority.(*Cache).SetUntil", c.CallSites(setUntil), map[string]string{
+	c.c07WhoMay(R, "call authority.(*Cache).SetUntil", c.CallSites(setUntil), map[string]string{
 		rp + "processDelegation": "final delegation entry, behind validReferral (R3)",
 		rp + "lookupV4Nss":       "provisional entry for the same key while NS addresses are resolved",
 	})
 	if sites := c.CallSites(set); len(sites) == 0 {
 		c.ok(R, R+"|call authority.(*Cache).Set|none", set.Pos(), "relative-TTL Set has no production caller")
 	} else {
-		c.WhoMay(R, "call authority.(*Cache).Set", sites, map[string]string{})
+		c.c07WhoMay(R, "call authority.(*Cache).Set", sites, map[string]string{})
 	}
-	c.WhoMay(R, "call authority.(*Cache).store", c.CallSites(store), map[string]string{
+	c.c07WhoMay(R, "call authority.(*Cache).store", c.CallSites(store), map[string]string{
 		"(*internal/authority.Cache).Set":      "clamps ttl then stores",
 		"(*internal/authority.Cache).SetUntil": "clamps deadline then stores",
 	})
@@ -748,11 +689,11 @@ func c07R4(c *Ctx) {
 		{"lookupV4Nss", "delegation path"}, {"lookupV6Nss", "delegation path (detached enrichment)"}, {"checkGlueRR", "delegation path"},
 	} {
 		if fo := c.fobj(R, c07res+".(*Resolver)."+t.fn); fo != nil {
-			c.WhoMay(R, "call "+t.fn, c.CallSites(fo), map[string]string{rp + "processDelegation": t.reason})
+			c.c07WhoMay(R, "call "+t.fn, c.CallSites(fo), map[string]string{rp + "processDelegation": t.reason})
 		}
 	}
 	if fo := c.fobj(R, c07res+".(*Resolver).processDelegation"); fo != nil {
-		c.WhoMay(R, "call processDelegation", c.CallSites(fo), map[string]string{rp + "processAuthoritySection": "referral branch of the authority-section triage"})
+		c.c07WhoMay(R, "call processDelegation", c.CallSites(fo), map[string]string{rp + "processAuthoritySection": "referral branch of the authority-section triage"})
 	}
 	// the key written is the NS question of the referral owner
 	c.Floor(R, 9)
@@ -832,11 +773,46 @@ func c07R5(c *Ctx) {
 	if ff == nil || rrtype == nil || hdrName == nil || qname == nil || covered == nil || equalFold == nil || answerF == nil {
 		return
 	}
-	if len(ff.AnonFuncs) != 1 {
-		c.undecided(R, R+"|filterCacheableAnswer|keep", ff.Pos(), fmt.Sprintf("expected exactly one keep closure, found %d", len(ff.AnonFuncs)))
+	// the keep predicate: the one bool function (closure of the filter, or an
+	// extracted same-package helper) that the filter calls on a record
+	var keep *ssa.Function
+	nKeep := 0
+	for _, b := range ff.Blocks {
+		for _, in := range b.Instrs {
+			cl, ok := in.(*ssa.Call)
+			if !ok || cl.Call.IsInvoke() {
+				continue
+			}
+			sf := cl.Call.StaticCallee()
+			if sf == nil || fnPkg(sf) == nil || fnPkg(sf) != fnPkg(ff) {
+				continue
+			}
+			res := sf.Signature.Results()
+			if res.Len() != 1 {
+				continue
+			}
+			if bt, ok := res.At(0).Type().Underlying().(*types.Basic); !ok || bt.Kind() != types.Bool {
+				continue
+			}
+			takesRR := false
+			for _, a := range cl.Call.Args {
+				if c07NamedType(a.Type(), "miekg/dns", "RR") {
+					takesRR = true
+				}
+			}
+			if !takesRR {
+				continue
+			}
+			if keep != sf {
+				nKeep++
+			}
+			keep = sf
+		}
+	}
+	if nKeep != 1 {
+		c.undecided(R, R+"|filterCacheableAnswer|keep", ff.Pos(), fmt.Sprintf("expected exactly one keep predicate (bool function of a record) called by the filter, found %d", nKeep))
 		return
 	}
-	keep := ff.AnonFuncs[0]
 	const typeDNAME = 39
 	dname := OnCmp("dname", FieldIs(rrtype), token.EQL, IsConstInt(typeDNAME), true)
 	owner := OnTrue("owner", func(e *Expr) bool {
@@ -844,42 +820,22 @@ func c07R5(c *Ctx) {
 		if e == nil || e.K != ECall || !CallTo(equalFold)(e) || len(e.Args) != 2 {
 			return false
 		}
-		return (Contains(FieldIs(qname))(e.Args[0]) && FieldIs(hdrName)(e.Args[1])) || (Contains(FieldIs(qname))(e.Args[1]) && FieldIs(hdrName)(e.Args[0]))
+		qn := c.c07ViaParam(Contains(FieldIs(qname))) // the question name, possibly handed to an extracted helper
+		return (qn(e.Args[0]) && FieldIs(hdrName)(e.Args[1])) || (qn(e.Args[1]) && FieldIs(hdrName)(e.Args[0]))
 	})
-	sigCmp := func(e *Expr) bool {
-		e = strip(e)
-		return e != nil && e.K == EBin && e.Op == token.EQL && ((FieldIs(covered)(e.X) && IsConstInt(typeDNAME)(e.Y)) || (FieldIs(covered)(e.Y) && IsConstInt(typeDNAME)(e.X)))
-	}
 	sig := OnCmp("sigdname", FieldIs(covered), token.EQL, IsConstInt(typeDNAME), true)
 	dname.Name, owner.Name, sig.Name = "dname", "owner", "sigdname"
-	ends, complete := c.c07Walk(keep, c07WalkSpec{Markers: []Barrier{dname, owner, sig}})
-	if !complete {
-		c.undecided(R, R+"|keep|walk", keep.Pos(), "path enumeration exceeded its budget")
-	}
-	n := 0
-	var bad *c07PathEnd
-	for i := range ends {
-		e := &ends[i]
-		if len(e.Vals) != 1 || e.Nil[0] == -1 {
-			continue
-		}
-		n++
-		okp := e.Marks["dname"] || e.Marks["owner"] || e.Marks["sigdname"]
-		if !okp && e.Vals[0] != nil && sigCmp(Desc(e.Vals[0])) {
-			okp = true
-		}
-		if !okp && bad == nil {
-			bad = e
-		}
-	}
+	nTrue, badKeep, decided := c.c07GoodReturnsGuarded(keep, 0, 0, dname, owner, sig)
 	key := R + "|filterCacheableAnswer$keep|true only for owner==qname ∨ DNAME ∨ RRSIG(DNAME)"
 	switch {
-	case n == 0:
+	case !decided:
+		c.undecided(R, key, keep.Pos(), "keep predicate could not be enumerated")
+	case nTrue == 0:
 		c.unresolved(R, "keep", "no path may return true")
-	case bad != nil:
-		c.violation(R, key, bad.Ret.Pos(), "keep may answer true for a record that is neither owned by the question name nor a DNAME / RRSIG(DNAME); path "+bad.Trail)
+	case badKeep != nil:
+		c.violation(R, key, badKeep.Ret.Pos(), "keep may answer true for a record that is neither owned by the question name nor a DNAME / RRSIG(DNAME); path "+badKeep.Trail)
 	default:
-		c.ok(R, key, keep.Pos(), fmt.Sprintf("%d true-capable path classes", n))
+		c.ok(R, key, keep.Pos(), fmt.Sprintf("%d true-capable path classes", nTrue))
 	}
 	keepCall := func(e *Expr) bool {
 		e = strip(e)
@@ -896,12 +852,12 @@ func c07R5(c *Ctx) {
 	kf := OnFalse("keepfalse", keepCall)
 	empty := OnCmp("empty", c07Len(c07FieldOf(answerF, c07ParamIdx(0))), token.EQL, IsConstInt(0), true)
 	kf.Name, empty.Name = "keepfalse", "empty"
-	ends, complete = c.c07Walk(ff, c07WalkSpec{Markers: []Barrier{kf, empty}})
+	ends, complete := c.c07Walk(ff, c07WalkSpec{Markers: []Barrier{kf, empty}})
 	if !complete {
 		c.undecided(R, R+"|filterCacheableAnswer|walk", ff.Pos(), "path enumeration exceeded its budget")
 	}
-	n = 0
-	bad = nil
+	n := 0
+	var bad *c07PathEnd
 	for i := range ends {
 		e := &ends[i]
 		if len(e.Vals) != 1 {
